@@ -11,6 +11,7 @@ RandomState in the same state agree; different seeds change the initial populati
 """
 from __future__ import annotations
 
+import copy
 import random as pyrandom
 import subprocess
 import sys
@@ -107,6 +108,64 @@ def main(tier: str) -> int:
                 chk.fail("an integer random_state and a RandomState in the same state give different runs", d, {"target": cn, "clause": "seed_key"})
             if a["snaps"][0][0] == d2["snaps"][0][0]:
                 chk.fail("a different seed does not change the initial population", d, {"target": cn, "clause": "different_seed"})
+    # ---- identical arguments include a caller-owned init_population handed to BOTH runs (same object)
+    for cn in T.ALL:
+        cfg = dict(pop_size=8 if cn not in T.GP else 7, iters=4, objective=("onemax" if cn not in T.FLOAT else "sphere"), seed=chk.seed * 10 + 6, elitism=True)
+        init = T.make_init(cn, cfg, cfg["seed"])
+        init0 = copy.deepcopy(init)
+        try:
+            fa = fingerprint(T.record(cn, dict(cfg, init_population=init, _init_copy=init0)))
+            perturb(31 + len(cn))
+            fb = fingerprint(T.record(cn, dict(cfg, init_population=init, _init_copy=init0)))
+        except Exception as e:
+            chk.fail("an optimizer run with a supplied init_population raises", {"optimizer": cn, **cfg, "error": repr(e)[:200]}, {"target": cn, "clause": "raises"})
+            continue
+        chk.count("shared_init_population")
+        chk.case((cn, "shared_init"))
+        if fa != fb:
+            gen = next((i for i, (x, y) in enumerate(zip(fa["snaps"], fb["snaps"])) if x != y), None)
+            chk.fail("two runs with identical arguments (the same init_population object) and seed differ: the first run changed the caller's array",
+                     {"optimizer": cn, **cfg, "first_differing_generation": gen, "init_population_changed": T.key_of(init) != T.key_of(init0)},
+                     {"target": cn, "clause": "same_seed_shared_init"})
+    # ---- GP with a user-defined operator of three arguments and swap mutations (the Sattolo shuffle only has a
+    #      choice to make from three arguments on), Python-level generators perturbed differently before each run
+    from thefittest.base import FunctionalNode, TerminalNode, EphemeralNode, UniversalSet, create_operator
+    from thefittest.utils.random import generator1
+    import thefittest.optimizers as O
+    xs = np.linspace(-2.0, 2.0, 16)
+    us3 = UniversalSet((FunctionalNode(create_operator("({} + {})", "add", "+", lambda a, b: a + b)),
+                        FunctionalNode(create_operator("pick({}, {}, {})", "pick", "pick", lambda c, a, b: np.where(np.asarray(c) > 0, a, b))),
+                        FunctionalNode(create_operator("mid({}, {}, {}, {})", "mid", "mid", lambda a, b, c, e: (a + b + c + e) / 4))),
+                       (TerminalNode(xs, "x0"), EphemeralNode(generator1)))
+
+    def gp_obj(trees):
+        out = np.empty(len(trees), dtype=np.float64)
+        for i, t in enumerate(trees):
+            with np.errstate(all="ignore"):
+                v = np.mean((t() * np.ones(len(xs)) - np.abs(xs)) ** 2)
+            out[i] = -v if np.isfinite(v) else -1e30
+        return out
+    for cls, kw in ((O.GeneticProgramming, dict(mutation="gp_custom_rate_swap", mutation_rate=1.0, crossover="gp_empty")),
+                    (O.GeneticProgramming, dict(mutation="gp_strong_swap", crossover="gp_standard")),
+                    (O.SelfCGP, dict(mutations=("gp_strong_swap", "gp_average_swap"))),
+                    (O.PDPGP, dict(mutations=("gp_strong_swap", "gp_weak_swap")))):
+        prints = []
+        try:
+            for rep in range(2):
+                perturb(400 + 19 * rep + len(prints))
+                o = cls(gp_obj, iters=5, pop_size=12, uniset=us3, max_level=7, init_level=4, keep_history=True, random_state=chk.seed + 8, **kw)
+                o.fit()
+                st = o.get_stats()
+                prints.append(([[str(t) for t in g] for g in st["population_g"]], [[float(v) for v in f] for f in st["fitness"]]))
+        except Exception as e:
+            chk.fail("a GP run over a universal set with 3- and 4-argument operators raises", {"optimizer": cls.__name__, **kw, "error": repr(e)[:200]}, {"target": cls.__name__, "clause": "raises"})
+            continue
+        chk.count("gp_ternary_swap")
+        chk.case((cls.__name__, "ternary_swap", str(sorted(kw.items()))))
+        if prints[0] != prints[1]:
+            gen = next((i for i, (x, y) in enumerate(zip(prints[0][0], prints[1][0])) if x != y), None)
+            chk.fail("two GP runs with identical arguments and seed differ (operators of three and four arguments, swap mutation)",
+                     {"optimizer": cls.__name__, **{k: str(v) for k, v in kw.items()}, "first_differing_generation": gen}, {"target": cls.__name__, "clause": "same_seed_swap"})
     # ---- estimators
     E.install_validate_data()
     Xr, yr = E.data_regression(seed=chk.seed)
